@@ -81,6 +81,7 @@ type ohpParams struct {
 	p          onehop.Path
 	l4         l4Kind
 	slack      int
+	ext        int  // extension headers between SCION header and L4: 1 HBH, 2 E2E, 3 HBH+E2E
 	hdrDelta   int  // added to the HdrLen field (in 4-byte lines) without moving any bytes
 	cutTo      int  // >0: the packet is cut to that many bytes beyond the address header
 	pldDelta   int  // added to the PayloadLen field after serialisation
@@ -104,6 +105,9 @@ func (q *ohpParams) raw(r *vlib.Rand) []byte {
 		s.RawDstAddr = []byte{0, 0, 0, 0, 0, 0, 0, 0, 0, 0, 0xff, 0xff, 10, 1, 2, 3}
 	}
 	raw := serializeSCION(s, q.l4, r)
+	if q.ext != 0 {
+		raw = withExtensions(raw, q.ext, r)
+	}
 	if q.reserved {
 		h, _ := parseRawHdr(raw)
 		off := 12 + h.addrLen
@@ -144,6 +148,68 @@ func (q *ohpParams) raw(r *vlib.Rand) []byte {
 		raw = append(raw, r.Bytes(q.trunc)...)
 	}
 	return raw
+}
+
+// withExtensions inserts a hop-by-hop and/or end-to-end extension header (one PadN option filled with
+// random bytes each) between the SCION header and the L4 header.
+func withExtensions(raw []byte, ext int, r *vlib.Rand) []byte {
+	h, ok := parseRawHdr(raw)
+	if !ok || h.hdrBytes > len(raw) {
+		return raw
+	}
+	mk := func(next byte) []byte {
+		lines := r.Range(1, 3) // total length (lines+1)*4
+		n := (lines + 1) * 4
+		b := make([]byte, n)
+		b[0], b[1] = next, byte(lines)
+		b[2], b[3] = 1, byte(n-4) // PadN covering the rest
+		copy(b[4:], r.Bytes(n-4))
+		return b
+	}
+	l4 := raw[4]
+	var extBytes []byte
+	switch ext {
+	case 1:
+		extBytes = mk(l4)
+		raw[4] = 200
+	case 2:
+		extBytes = mk(l4)
+		raw[4] = 201
+	default:
+		e2e := mk(l4)
+		extBytes = append(mk(201), e2e...)
+		raw[4] = 200
+	}
+	out := append([]byte(nil), raw[:h.hdrBytes]...)
+	out = append(out, extBytes...)
+	out = append(out, raw[h.hdrBytes:]...)
+	binary.BigEndian.PutUint16(out[6:8], uint16(h.payloadLen+len(extBytes)))
+	return out
+}
+
+// changedBytes lists what a one-hop packet may differ in after processing (statement C07 for one-hop
+// packets): leaving - the SegID; entering - the second hop field's 12 bytes; in both cases the reserved
+// bits of the info/hop flag bytes and the info field's reserved byte are cleared by re-serialisation.
+// It returns the offset of the first byte that changed although it must not (-1: none).
+func changedBytes(in, out []byte, pathOff int, leaving bool) int {
+	if len(in) != len(out) {
+		return len(out)
+	}
+	for i := range in {
+		if in[i] == out[i] {
+			continue
+		}
+		o := i - pathOff
+		switch {
+		case o == 0 && out[i] == in[i]&0x03, o == 1 && out[i] == 0, o == 8 && out[i] == in[i]&0x03:
+		case leaving && (o == 2 || o == 3):
+		case leaving && o == 20 && out[i] == in[i]&0x03:
+		case !leaving && o >= 20 && o < 32:
+		default:
+			return i
+		}
+	}
+	return -1
 }
 
 type c12 struct {
@@ -239,6 +305,9 @@ func (c *c12) predicate(a *asCfg, via uint16, raw []byte, res router.VerifR2Resu
 		!bytes.Equal(out.Payload, raw[h.hdrBytes:]) {
 		bad("out-garbled", "forwarded packet differs from the received one outside the path")
 		return
+	}
+	if i := changedBytes(raw, res.Out, 12+h.addrLen, a.ingressOf(via) == 0); i >= 0 {
+		bad("bytes-changed", fmt.Sprintf("forwarded one-hop packet differs from the received one at offset %d (length %d -> %d), outside SegID / second hop field", i, len(raw), len(res.Out)))
 	}
 	if h.payloadLen != len(raw)-h.hdrBytes {
 		bad("payloadlen", "forwarded although PayloadLen disagrees with the bytes after the header")
@@ -342,6 +411,68 @@ func (c *c12) reversal(a, b *asCfg, aIf, bIf uint16, completed []byte, op string
 	}
 }
 
+// concurrent: several packet processors of one data plane (one per goroutine, as in the router) handle
+// valid one-hop packets at the same time; every packet must be treated exactly as by a single processor.
+func (c *c12) concurrent(A, B *asCfg, aIf, bIf uint16, per int) {
+	r := c.r
+	const G = 4
+	mkLists := func(x *asCfg, leaving bool) [][]router.VerifR2LoopPacket {
+		lists := make([][]router.VerifR2LoopPacket, G)
+		for g := 0; g < G; g++ {
+			for k := 0; k < per; k++ {
+				ts := nowSec() - uint32(r.Intn(600))
+				first := path.HopField{ConsEgress: aIf, ExpTime: uint8(r.Range(1, 255))}
+				info := path.InfoField{ConsDir: true, SegID: uint16(r.Intn(65536)), Timestamp: ts}
+				copy(first.Mac[:], hopMacFull(A.key, info.SegID, ts, first.ExpTime, 0, aIf)[:6])
+				q := ohpParams{src: A.ia, dst: B.ia, srcHost: randHost(r), dk: dIP4, p: onehop.Path{Info: info, FirstHop: first}, l4: l4UDP}
+				via := uint16(0)
+				if !leaving {
+					q.p.Info.SegID ^= binary.BigEndian.Uint16(first.Mac[:2])
+					via = bIf
+				}
+				lists[g] = append(lists[g], router.VerifR2LoopPacket{Raw: q.raw(r), Via: via})
+			}
+		}
+		return lists
+	}
+	for _, side := range []struct {
+		x       *asCfg
+		leaving bool
+	}{{A, true}, {B, false}} {
+		lists := mkLists(side.x, side.leaving)
+		seq := make([][]router.VerifR2Result, G)
+		for g := range lists {
+			for _, lp := range lists[g] {
+				seq[g] = append(seq[g], side.x.dp.Process(lp.Raw, lp.Via))
+			}
+		}
+		var conc [][]router.VerifR2Result
+		if msg, ok := vlib.Safe(func() string { conc = side.x.dp.ProcessConcurrent(lists); return "" }); !ok {
+			c.e.Violate("C12/concurrent-panic", msg, map[string]any{"local": side.x.ia.String()})
+			continue
+		}
+		for g := range lists {
+			for k := range lists[g] {
+				s, cc := seq[g][k], conc[g][k]
+				c.e.Case("conc:"+vlib.Hex(lists[g][k].Raw), fmt.Sprintf("concurrent/leaving=%v/disp%d", side.leaving, cc.Disp), false)
+				if s.Disp != router.VerifR2Forward {
+					c.e.Extra["generator-miss:concurrent"] = fmt.Sprintf("sequential disp=%d", s.Disp)
+					continue
+				}
+				if cc.Disp != s.Disp || cc.Egress != s.Egress || !bytes.Equal(cc.Out, s.Out) {
+					what := "valid one-hop packet rejected"
+					if cc.Disp == router.VerifR2Forward {
+						what = "one-hop packet forwarded with different bytes (second hop MAC / SegID)"
+					}
+					c.e.Violate("C12/concurrent-differs", fmt.Sprintf("%d packet processors working concurrently: %s although a single processor accepts it (disp %d, panic/info %q)", G, what, cc.Disp, cc.Remote),
+						map[string]any{"raw": vlib.Hex(lists[g][k].Raw), "via": lists[g][k].Via, "local": side.x.ia.String(), "key": vlib.Hex(side.x.key),
+							"sequential_out": vlib.Hex(s.Out), "concurrent_out": vlib.Hex(cc.Out), "goroutine": g, "index": k})
+				}
+			}
+		}
+	}
+}
+
 func (c *c12) mkPair(i int) (*asCfg, *asCfg, uint16, uint16) {
 	r := c.r
 	A := &asCfg{ia: ia(1, 0xff0000000110+uint64(i%3)), key: r.Bytes(16), reuse: r.Bool(), svcCS: r.Chance(80)}
@@ -433,7 +564,8 @@ func (c *c12) run() {
 	e.Rule = "pairs of neighbouring ASes (random keys, interface ids, link types, one sibling-owned interface each); " +
 		"one-hop packets built with the repository's serializer: valid issue at A -> completion at B -> reversed path through B and A, " +
 		"plus one named mutation per packet (source/destination AS, egress interface, MAC byte, other key, ConsDir, SegID, " +
-		"second hop prefilled, reserved bits, HdrLen slack, destination host kind, L4 kind, wrong receiving interface); " +
+		"second hop prefilled, reserved bits, HdrLen slack, destination host kind, L4 kind, wrong receiving interface), 30% with HBH / E2E / HBH+E2E extension headers; " +
+		"4 packet processors of one data plane handling valid one-hop packets concurrently vs. one processor; " +
 		"non-trivial = every packet (all reach processOHP or the header decoder's length check); distinct by op line"
 	c.bfdSendCases(e.N(12, 120))
 	npairs := e.N(24, 200)
@@ -441,6 +573,9 @@ func (c *c12) run() {
 	other := ia(3, 0xff0000000999)
 	for pi := 0; pi < npairs; pi++ {
 		A, B, aIf, bIf := c.mkPair(pi)
+		if pi < e.N(3, 12) {
+			c.concurrent(A, B, aIf, bIf, e.N(800, 4000))
+		}
 		for k := 0; k < per; k++ {
 			now := nowSec()
 			ts := now - uint32(r.Intn(600))
@@ -458,6 +593,9 @@ func (c *c12) run() {
 			}
 			if r.Chance(20) {
 				q.l4 = l4Kind(r.Intn(4))
+			}
+			if r.Chance(30) {
+				q.ext = r.Range(1, 3)
 			}
 			viaA := uint16(0)
 			if r.Chance(25) {
